@@ -187,6 +187,10 @@ def cases(tier):
         for units in _unit_choices(kernel, tier):
             for mode in modes:
                 out.append({'kind': 'grid', 'kernel': kernel, 'units': units, 'mode': mode, 'tier': tier})
+            # whole numbers held in integer variables (counts of ns, mm, degrees ...): the same physical inputs, so the
+            # same definitions, judged at the double-precision bound ('intsec': only the non-data operands are integers)
+            for mode in (('int64', 'int32', 'intsec') if nargs > 1 else ('int64', 'int32')):
+                out.append({'kind': 'grid', 'kernel': kernel, 'units': units, 'mode': mode, 'tier': tier})
     for route, args in ROUTES.items():
         per_arg = [_units_for(name, kind, tier) for name, kind in args]
         for combo in itertools.product(*per_arg):
@@ -227,11 +231,30 @@ def _np_dtype(mode, is_data):
         return 'float32'
     if mode == 'f32data':
         return 'float32' if is_data else 'float64'
+    if mode in ('int64', 'int32'):
+        return mode
+    if mode == 'intsec':
+        return 'float64' if is_data else 'int64'
     raise ValueError(mode)
 
 
+INT_MODES = ('int64', 'int32', 'intsec')
+
+
 def _precision(mode):
-    return 'double' if mode == 'f64' else 'single'
+    return 'double' if mode == 'f64' or mode in INT_MODES else 'single'
+
+
+def _int_values_for(arg, kind, unit, dtype='int64'):
+    """Whole-number test values of one argument in ``unit`` that lie in the stated physical range (1e-9 .. 1e9 SI)."""
+    if kind == 'angle':
+        return [1.0, 2.0, 3.0] if unit == 'rad' else [1.0, 30.0, 60.0, 90.0, 120.0, 179.0, 180.0]
+    f = kin.factor(kind, unit)
+    lo, hi = hp.F(Fraction('1e-9')), hp.F(Fraction('1e9'))
+    if kind == 'energy':  # the stated range is in SI (J); keep to energies a neutron instrument sees as well
+        lo, hi = hp.F(Fraction('1e-9')) * hp.MEV, hp.F(10**6) * hp.EV
+    top = np.iinfo(dtype).max
+    return [float(v) for v in (1, 2, 7, 25, 1000, 10**6, 2 * 10**9, 4 * 10**9, 10**12, 10**15) if v <= top and lo <= v * f <= hi]
 
 
 def _received(values, dtype):
@@ -307,7 +330,7 @@ def _check_meta(rec, kernel, units, mode, layout, res, want_dims):
         good = False
     else:
         rec.cls({'angstrom': 'unit_angstrom', 'meV': 'unit_meV'}.get(ounit, 'unit_inverse_wavelength'))
-    want_dtype = 'float64' if mode == 'f64' else 'float32'
+    want_dtype = 'float64' if mode == 'f64' or mode in INT_MODES else 'float32'
     if str(res.dtype) != want_dtype:
         rec.viol(SITE[kernel], 'wrong_dtype', f'{kernel} units {units} mode {mode} layout {layout}: result dtype {res.dtype}, expected {want_dtype}', units=units, mode=mode, layout=layout, got_dtype=str(res.dtype))
     if dict(res.sizes) != dict(want_dims) or set(res.dims) != set(want_dims):
@@ -327,7 +350,12 @@ def _run_grid(case, rec, layouts=('0d', '1d', '2d', 'bcast', 'perpixel'), cache=
     fn = FUNCS[kernel]
     names = [n for n, _ in spec['args']]
     dts = [_np_dtype(mode, i == 0) for i in range(len(names))]
-    alph = [_values_for(n, k, units[n], tier) for n, k in spec['args']]
+    alph = [_int_values_for(n, k, units[n], dts[i]) if np.dtype(dts[i]).kind == 'i' else _values_for(n, k, units[n], 'quick' if mode in INT_MODES else tier) for i, (n, k) in enumerate(spec['args'])]
+    if any(len(a) == 0 for a in alph):
+        rec.cls('no_whole_number_in_range')  # e.g. a wavelength counted in metres
+        return
+    if mode in INT_MODES:
+        rec.cls('integer_operands')
     recv = [_received(a, d) for a, d in zip(alph, dts, strict=True)]  # what the kernel sees, per argument alphabet
     judge = _Judge(rec, kernel, units, mode, cache)
     idx_grid = list(itertools.product(*[range(len(a)) for a in alph]))
